@@ -74,7 +74,9 @@ class SymRandom(random.Random):
         raise StubLimit("uniform() not modelled")
 
     def getrandbits(self, k):
-        raise StubLimit("getrandbits not modelled")
+        v = self._next() % (2 ** k)           # k bits of the stream
+        self.draws.append((2 ** k, v))
+        return v
 
     def random(self):
         raise StubLimit("random() not modelled")
